@@ -305,6 +305,34 @@ func fill(toks []tok, vals []string) string {
 	return pb.String()
 }
 
+// fillPctLit is fill with the first ASCII letter of a literal written as a percent escape (of its other-case form when
+// swap is set).
+func fillPctLit(toks []tok, vals []string, swap bool) (string, bool) {
+	var pb strings.Builder
+	vi, done := 0, false
+	for _, t := range toks {
+		if t.Kind != 0 {
+			pb.WriteString(vals[vi])
+			vi++
+			continue
+		}
+		for i := 0; i < len(t.Lit); i++ {
+			ch := t.Lit[i]
+			isLetter := ch >= 'a' && ch <= 'z' || ch >= 'A' && ch <= 'Z'
+			if done || !isLetter {
+				pb.WriteByte(ch)
+				continue
+			}
+			if swap {
+				ch ^= 0x20
+			}
+			fmt.Fprintf(&pb, "%%%02X", ch)
+			done = true
+		}
+	}
+	return pb.String(), done
+}
+
 func casesFor(toks []tok, cs, strict, unesc bool, emit func(Case)) {
 	pattern := patternString(toks)
 	var params []int
@@ -360,6 +388,15 @@ func casesFor(toks []tok, cs, strict, unesc bool, emit func(Case)) {
 				cc.Want = pv
 			}
 			emit(cc)
+		}
+		if unesc {
+			// a letter of a literal arrives percent-encoded (in the other case when routing ignores case): decoding comes
+			// before case folding, so the literal still matches
+			if pp, ok := fillPctLit(toks, vals, !cs); ok {
+				cc := c
+				cc.Path, cc.Variant = pp, "pctlit"
+				emit(cc)
+			}
 		}
 	}
 	assign(0, nil)
